@@ -288,6 +288,40 @@ func VerifC09_OneRolloutPerWorkload() {
 	verifrt.Assert(other.Name == r.Name || other.Spec.WorkloadRef != r.Spec.WorkloadRef, "C09.conflict.oneRolloutPerWorkload")
 }
 
+// VerifC09_V1alpha1OneRolloutPerWorkload: the same promise when the Rollout arrives as v1alpha1.
+func VerifC09_V1alpha1OneRolloutPerWorkload() {
+	refs := []appsv1alpha1.WorkloadRef{{APIVersion: "apps/v1", Kind: "Deployment", Name: "web"}, {APIVersion: "apps.kruise.io/v1alpha1", Kind: "CloneSet", Name: "web"}}
+	mk := func(tag, name string) *appsv1alpha1.Rollout {
+		r := &appsv1alpha1.Rollout{ObjectMeta: metav1.ObjectMeta{Namespace: "ns", Name: name}}
+		ref := refs[verifrt.IntRange(tag+".workloadRef", 0, 1)]
+		r.Spec.ObjectRef.WorkloadRef = &ref
+		return r
+	}
+	r := mk("new", "ro")
+	other := mk("other", verifrt.String("other.name"))
+	selfInList := verifrt.IntRange("self.inList", 0, 2)
+	cli := &symclient.Client{}
+	cli.ListFn = func(list client.ObjectList, opts []client.ListOption) error {
+		l := list.(*appsv1alpha1.RolloutList)
+		switch selfInList {
+		case 1:
+			l.Items = []appsv1alpha1.Rollout{*r.DeepCopy(), *other}
+		case 2:
+			l.Items = []appsv1alpha1.Rollout{*other, *r.DeepCopy()}
+		default:
+			l.Items = []appsv1alpha1.Rollout{*other}
+		}
+		return nil
+	}
+	h := &RolloutCreateUpdateHandler{Client: cli}
+	errs := h.validateV1alpha1RolloutConflict(r, field.NewPath("Conflict Checker"))
+	if len(errs) != 0 {
+		return
+	}
+	verifrt.Cover("accepted")
+	verifrt.Assert(other.Name == r.Name || *other.Spec.ObjectRef.WorkloadRef != *r.Spec.ObjectRef.WorkloadRef, "C09.conflict.v1alpha1.oneRolloutPerWorkload")
+}
+
 func c09Decoder() *admission.Decoder {
 	scheme := runtime.NewScheme()
 	_ = appsv1beta1.AddToScheme(scheme)
